@@ -1138,12 +1138,7 @@ func ruleSingleDispatcher(c *chk.Ctx, d *dispatchModel) {
 	// FIFO pair only; inserts only in the reader and the stop function
 	var pops []ssa.CallInstruction
 	stop := stopFunc(c, "server")
-	var recvFn *ssa.Function
-	for _, s := range chanSites(c, "Recv") {
-		if ir.RecvNamed(s.fn) == c.M.Server {
-			recvFn = s.fn
-		}
-	}
+	recvFn, _ := readerOf(c, "server")
 	for _, f := range pkgFuncs(c, c.M.Pkg) {
 		ir.Calls(f, func(ci ssa.CallInstruction) {
 			cc := ci.Common()
